@@ -48,6 +48,42 @@ theorem decode_total (bs : Bytes) :
     unfold encodeTx
     split <;> simp only [encodeTxNoWit, encodeBody, List.length_append, leBytes_length, List.length_cons, List.length_nil] <;> omega
 
+/-- **encode_decode.** For every well-formed transaction (field ranges; at least one input; a witness has one
+    stack per input and one non-empty stack) `btc.NewTx` applied to `SerializeNew()` followed by arbitrary
+    trailing bytes returns that transaction and consumes exactly the serialisation. -/
+theorem encode_decode (tx : Tx) (hw : tx.WF) (rest : Bytes) :
+    decodeTx (encodeTx tx ++ rest) = some (tx, (encodeTx tx).length) := by
+  simp [decodeTx, decodeTxFull_encode tx hw rest]
+
+example : ∃ tx : Tx, tx.WF ∧ tx.witness ≠ none :=
+  ⟨{ version := 2, ins := [{ prevHash := List.replicate 32 7, prevIdx := 1, scriptSig := [], sequence := 0 }],
+     outs := [{ value := 5, pkScript := [0x51] }], witness := some [[[1, 2]]], lockTime := 0 },
+   { version := by decide, lockTime := by decide, ins_ne := by simp,
+     ins := by intro i hi; simp at hi; subst hi; exact ⟨by decide, by decide, by decide, by decide⟩,
+     outs := by intro o ho; simp at ho; subst ho; exact ⟨by decide, by decide⟩,
+     nins := by decide, nouts := by decide,
+     wit := by
+       intro w hw; simp at hw; subst hw
+       refine ⟨by decide, by decide, ?_⟩
+       intro s hs; simp at hs; subst hs
+       refine ⟨by decide, ?_⟩
+       intro x hx; simp at hx; subst hx; decide },
+   by simp⟩
+
+/-- Both directions together: on well-formed transactions `decodeTx` is a left inverse of `encodeTx`, and on
+    accepted inputs `encodeTx` is a left inverse of `decodeTx` — the accepted byte strings are exactly the
+    serialisations, each with a single reading. -/
+theorem accepted_iff_serialisation (bs : Bytes) (tx : Tx) (hw : tx.WF) :
+    decodeTx bs = some (tx, (encodeTx tx).length) ↔ ∃ rest, bs = encodeTx tx ++ rest := by
+  constructor
+  · intro h
+    have := decode_reencode bs tx _ h
+    refine ⟨bs.drop (encodeTx tx).length, ?_⟩
+    conv => rhs; arg 1; rw [this]
+    exact (List.take_append_drop _ bs).symm
+  · rintro ⟨rest, rfl⟩
+    exact encode_decode tx hw rest
+
 /-- **canonical.** The bytes consumed are a function of the decoded transaction: two accepted byte strings
     that decode to the same transaction have identical consumed prefixes (no malleability through the
     encoding of lengths, marker or witness section). -/
@@ -130,6 +166,71 @@ theorem sizes_spec (H : Bytes → Bytes) (bs : Bytes) (tx : Tx) (n : Nat)
       · have : ((encodeTxNoWit d.tx).length + 1) % 2^32 = (encodeTxNoWit d.tx).length + 1 :=
           Nat.mod_eq_of_lt (by omega)
         rw [this]; omega
+
+/-- **block_weight_spec.** When `btc.NewBlock` + `BuildTxList` succeed on a block below 1 GiB, as many
+    transactions were built as the count field says and `Block.BlockWeight` equals the BIP141 weight
+    (3 · base size + total size) of header, count and the transactions built. -/
+theorem block_weight_spec (H : Bytes → Bytes) (raw : Bytes) (hl : raw.length < 2^30)
+    (hok : (decodeBlock H raw).err = none) :
+    (decodeBlock H raw).weight = blockWeightSpec ((decodeBlock H raw).txs.map (·.tx)) ∧
+    (decodeBlock H raw).txs.length = (decodeBlock H raw).txCount := by
+  have h80 : ¬ raw.length < 80 := by
+    intro h; simp [decodeBlock, h] at hok
+  unfold decodeBlock at hok ⊢
+  simp only [h80, ↓reduceIte] at hok ⊢
+  cases hv : vlenWire (raw.drop 80) with
+  | none => simp [hv] at hok
+  | some pr =>
+  obtain ⟨cnt, rest⟩ := pr
+  simp only [hv] at hok ⊢
+  have hc0 : ¬ cnt = 0 := by
+    intro h; simp [h] at hok
+  simp only [hc0, ↓reduceIte] at hok ⊢
+  obtain ⟨hr, _, _⟩ := vlenWire_spec hv
+  have hrl : rest.length ≤ raw.length := by
+    have := congrArg List.length hr
+    simp only [List.length_drop, List.length_append] at this
+    omega
+  cases hd : decodeTxs cnt rest with
+  | mk l ok =>
+    rw [hd] at hok
+    simp only at hok ⊢
+    have hokt : ok = true := by
+      cases ok with
+      | true => rfl
+      | false => simp at hok
+    obtain ⟨g, sl, k⟩ := decodeTxs_spec cnt rest (by omega) l ok hd
+    have k' := k hokt
+    have hmap := mkBlockTxs_map H l true
+    have hlen : (mkBlockTxs H true l).length = l.length := by
+      have := congrArg List.length hmap
+      simpa using this
+    have e1 : (mkBlockTxs H true l).map (fun t => (3 * t.ids.noWitSize + t.ids.size) % 2^32) =
+        l.map (fun p => (3 * p.1.noWitSize + p.2.length % 2^32) % 2^32) := by
+      have := congrArg (List.map (fun (q : Nat × Nat × Tx) => (3 * q.1 + q.2.1) % 2^32)) hmap
+      simpa [List.map_map, Function.comp_def] using this
+    have e2 : ((mkBlockTxs H true l).map (·.tx)).map (fun t => (encodeTxNoWit t).length) =
+        l.map (fun p => (encodeTxNoWit p.1.tx).length) := by
+      have := congrArg (List.map (fun (q : Nat × Nat × Tx) => (encodeTxNoWit q.2.2).length)) hmap
+      simpa [List.map_map, Function.comp_def] using this
+    have e3 : ((mkBlockTxs H true l).map (·.tx)).map (fun t => (encodeTx t).length) =
+        l.map (fun p => (encodeTx p.1.tx).length) := by
+      have := congrArg (List.map (fun (q : Nat × Nat × Tx) => (encodeTx q.2.2).length)) hmap
+      simpa [List.map_map, Function.comp_def] using this
+    have ws := weight_sum raw.length hl l g (by omega)
+    have ⟨s1, s2⟩ := sum_le_of_weight l g
+    refine ⟨?_, by rw [hlen, k']⟩
+    unfold blockWeightSpec
+    simp only [List.length_map, hlen, k', e1, e2, e3, ws]
+    have hvs : CompactSize.vlenSize cnt ≤ 9 := by
+      unfold CompactSize.vlenSize; split; · omega
+      split; · omega
+      split <;> omega
+    rw [Nat.mod_eq_of_lt (by omega)]
+    omega
+
+example : (decodeBlock (fun _ => []) (List.replicate 80 0 ++ [1] ++ witCanonical)).err = none := by
+  decide +kernel
 
 /-- **Pre-fix counterexample (DESIGN §7 F4, confirmed on the real code before the `fix:` commit).**
     With the length reader the decoders used before (`btc.VLen`: any CompactSize form), `decode_reencode`
